@@ -1026,14 +1026,16 @@ def run(ck):
                "chains, attributes with defaults, occurs/nillable) extended with recursive and forward type "
                "references, enumerations and other simple types, wildcards, empty and attribute-only types, anonymous "
                "complex types on local and global elements, numeric/explicit occurrence bounds, schema blocks in rotated "
-               "order, the same "
+               "order, fixed shapes in every interface (Drawing{seg: Segment{start: Point, end: Point}, shape: Shape{id, "
+               "choice, label, @unit}}, Order{customer: Customer{address: Address{.., @kind}}}), the same "
                "member name in unrelated types, global elements of built-in/simple/complex type in every namespace "
                "(one called like a type), two prefixes per namespace; x every global type/element in every root "
                "form (plain / each prefix / {uri}) x every member by dotted path (depth 1 exhaustively, random "
-               "walks to depth 4, @attributes) x unknown names of every form (bogus local name, wrong namespace, "
+               "walks to depth 4, @attributes; paths of 3-4 parts through members typed by reference to named types, also "
+               "ending in @attr, in every root form for the fixed shapes) x unknown names of every form (bogus local name, wrong namespace, "
                "unknown URI, undeclared prefix, bogus/misplaced member, wrong case) x malformed strings; "
-               "PathResolver.split on random strings over '{}.:@aB\\n'; qualify on the same; one filled-object vs "
-               "dict request per operation.  distinct = (interface, string); non-trivial = not a TypeNotFound for "
+               "PathResolver.split on random strings over '{}.:@aB\\n'; qualify on the same; three filled-object (one "
+               "branch of each choice set) vs schema-ordered dict requests per operation.  distinct = (interface, string); non-trivial = not a TypeNotFound for "
                "a dot-free name")
     if proof_ok is False:
         ck.unproved("proof obligation of C03 no longer checks: " + ck.proof_log[-1500:], {"log": ck.proof_log[-3000:]})
